@@ -19,6 +19,9 @@ class KDConcatDataset(ConcatDataset):
             return getattr(super(), item)
         if item.startswith("getall_"):
             # all methods starting with getall_ have to concatenate the result of dataset.getall_... for all datasets
+            # (only if all datasets implement it -> otherwise hasattr would be True for every getall_...)
+            for dataset in self.datasets:
+                getattr(dataset, item)
             return partial(self._call_getall, item)
         # warning/exception here might make sense
         return getattr(self.datasets[0], item)
